@@ -166,25 +166,112 @@ def rule_compare_chain(run):
 
 
 def rule_boolop(run):
-    run.begin("C10.bool", "and/or over constants: `and` is False iff some constant operand is falsy, `or` is True iff some constant operand is truthy; empty run-time part -> the neutral element", floor=4)
+    run.begin(
+        "C10.bool",
+        "and/or over every mix of constants and run-time values (up to 3 operands, thorough 4): `and` is False iff some "
+        "constant operand is falsy, `or` is True iff some constant operand is truthy, otherwise the conjunction / "
+        "disjunction of exactly the run-time operands (the neutral element when there is none); operands are evaluated "
+        "left to right and - like in CPython - not at all once a constant operand has decided the result "
+        "(abstract evaluation of the ast.BoolOp handler)",
+        floor=50,
+    )
+    import itertools
+    from ..absint import Interp, Reject, Env, _Return
+
     prep = run.idx.mod(PREP)
     ai = prep.func("PrepareAst.apply_impl")
     b = _branch(ai.node, "ast.BoolOp")
     if b is None:
         raise AnalysisError("anchor vanished: ast.BoolOp handler")
-    for opn, first_test, first_val, empty_val, node_cls in (("And", "not all(const_vars)", "False", "True", "out.All"), ("Or", "any(const_vars)", "True", "False", "out.Any")):
-        br = [s for s in ast.walk(b) if isinstance(s, ast.If) and P.T(s.test) == f"isinstance(inp.op, ast.{opn})"]
-        if not br:
-            raise AnalysisError(f"BoolOp branch for {opn} not found")
-        inner = [s for s in br[0].body if isinstance(s, ast.If)]
-        ok = bool(inner) and src(inner[0].test) == first_test and src(inner[0].body[-1].value).startswith(f"out.Value({first_val}")
-        run.ob(ok, f"apply_impl[ast.BoolOp].{opn}", file=prep.rel, line=br[0].lineno, detail="short-circuit", expected=f"if {first_test}: {first_val}", found=src(inner[0].test) if inner else "missing")
-        el = inner[0].orelse[0] if inner and inner[0].orelse and isinstance(inner[0].orelse[0], ast.If) else None
-        ok = el is not None and P.T(el.test) == "len(runtime_vars) == 0" and src(el.body[-1].value).startswith(f"out.Value({empty_val}")
-        run.ob(ok, f"apply_impl[ast.BoolOp].{opn}", file=prep.rel, line=br[0].lineno, detail="neutral", expected=f"no run-time operand -> {empty_val}", found="ok" if ok else "changed")
-        last = br[0].body[-1]
-        ok = isinstance(last, ast.Return) and src(last.value).startswith(node_cls + "(runtime_vars")
-        run.ob(ok, f"apply_impl[ast.BoolOp].{opn}", file=prep.rel, line=br[0].lineno, detail="node", expected=node_cls, found=src(last)[:50])
+
+    class _RT:
+        def __init__(self, n):
+            self.n = n
+
+    class _Operand:
+        def __init__(self, name, value):
+            self.name, self.value = name, value
+
+    class _Expr:
+        def __init__(self, v):
+            self.v = v
+
+        def result(self):
+            return self.v
+
+    class _Node:
+        def __init__(self, kind, *a):
+            self.kind, self.a = kind, a
+
+    class _Out:
+        Expression = _Expr
+        Value = lambda self, *a: _Node("Value", *a)
+        All = lambda self, *a: _Node("All", *a)
+        Any = lambda self, *a: _Node("Any", *a)
+
+    class _And:
+        pass
+
+    class _Or:
+        pass
+
+    class _Ast:
+        And, Or, BoolOp = _And, _Or, object
+
+    class _Ev:
+        pass
+
+    class _Inp:
+        pass
+
+    for opname, opcls in (("and", _And), ("or", _Or)):
+        for n in range(1, run.bound(4, 5)):
+            for combo in itertools.product("TFR", repeat=n):
+                applied = []
+
+                class _Self:
+                    def apply(self_, val):
+                        applied.append(val.name)
+                        return _Expr(val.value)
+
+                    def convert_boolean(self_, v, bound=None):
+                        return _Expr(v)
+
+                inp = _Inp()
+                inp.values = [_Operand(i, True if k == "T" else False if k == "F" else _RT(i)) for i, k in enumerate(combo)]
+                inp.op = opcls()
+                decide = "F" if opname == "and" else "T"
+                first = combo.index(decide) if decide in combo else None
+                exp_applied = list(range(n if first is None else first + 1))
+                seen = combo if first is None else combo[:first + 1]
+                rt = tuple(i for i, k in enumerate(seen) if k == "R")
+                if first is not None:
+                    exp = ("Value", opname == "or")
+                elif not rt:
+                    exp = ("Value", opname == "and")
+                else:
+                    exp = ("All" if opname == "and" else "Any", rt)
+                prims = {"isinstance": lambda v, t: isinstance(v, t) if isinstance(t, (type, tuple)) else False, "ast": _Ast(), "out": _Out(), "cast": lambda t, x: x, "str": str, "bool": bool,
+                         "all": all, "any": any, "len": len, "_BitSignalEvent": _Ev, "_BitSignalEventGroup": _Ev}
+                env = Env()
+                env.vars["self"] = _Self()
+                env.vars["inp"] = inp
+                try:
+                    Interp(prep, prims).run(b.body, env)
+                    got = ("fell through",)
+                except _Return as r:
+                    v = r.value
+                    if isinstance(v, _Node) and v.kind == "Value":
+                        got = ("Value", v.a[0])
+                    elif isinstance(v, _Node):
+                        got = (v.kind, tuple(x.n if isinstance(x, _RT) else repr(x) for x in v.a[0]))
+                    else:
+                        got = (repr(v),)
+                except Reject as e:
+                    got = ("rejected", str(e))
+                ok = got == exp and applied == exp_applied
+                run.ob(ok, f"apply_impl[ast.BoolOp].{opname}", file=prep.rel, line=b.lineno, detail="".join(combo), expected=f"{exp}, operands evaluated: {exp_applied}", found=f"{got}, operands evaluated: {applied}"[:120],
+                       sample=(opname, combo) == ("and", ("F", "R")))
     run.end()
 
 
